@@ -469,3 +469,20 @@ def c17_f(ctx):
               'return adjustment.adjust()',
               'adjust_posterior does not return the adjusted sample of the fitted adjustment',
               fn=ap, node=rr[0] if rr else ap.node)
+
+
+@obligation('C17-g', 'T2', 'the regression adjustment and the model comparison contain no absolute '
+            'tolerance', floor=6,
+            necessary='the adjustment must be unaffected by an affine re-expression of the '
+                      'summaries and leave a draw unchanged exactly when its summaries equal the '
+                      'observed ones: a test against an absolute number makes both depend on the '
+                      'units of the summaries')
+def c17_g(ctx):
+    from .base import scale_free_sweep
+    fns = []
+    for q in ('elfi.methods.post_processing:RegressionAdjustment',
+              'elfi.methods.post_processing:LinearAdjustment'):
+        fns += list(ctx.cls(q).methods.values())
+    fns.append(ctx.fn('elfi.methods.model_selection:compare_models'))
+    scale_free_sweep(ctx, fns, 'the result depends on the units the summaries / discrepancies are '
+                               'expressed in')
